@@ -61,7 +61,9 @@ def cases(tier, seed):
         yield "ig.records", {"table": table, "recs": recs, "one_based": one_based, "tril": tril, "valued": False,
                              "via": via, "chunk": rng.choice([1, 2, 3, 1000]) if not many else rng.choice([1, 2]),
                              "header": f("header", 10) == 0, **({"max_merge": rng.choice([2, 3, 4])} if many else {}),
-                             "labels": ["default", "offset", "perm"][f("labels", 3)], "pos_dtype": ["int64", "int32"][f("posdt", 2)]}
+                             "labels": ["default", "offset", "perm"][f("labels", 3)], "pos_dtype": ["int64", "int32"][f("posdt", 2)],
+                             "names": ["usual", "unsorted"][f("names", 2)], "chrom_cat": ["no", "no", "lexical"][f("chromcat", 3)],
+                             "chrom_ids": ["names", "names", "integer"][f("chromids", 3)]}
     # single records on every interesting position (both anchors), every option: the boundary cases of the property
     for table in tables[:6] if tier == "quick" else tables:
         nch = 1 + max(t[0] for t in table)
